@@ -340,6 +340,11 @@ pub fn explore_c11(rep: &Report, finish: bool) -> i32 {
             sweep_roots.push(p);
         }
     }
+    for (i, f) in MATE_RACE_ROOTS.iter().enumerate() {
+        if !quick || i % 2 == 0 {
+            sweep_roots.push(Pos::from_fen(f).expect("mate race fen"));
+        }
+    }
     {
         let sm = special_move_check_positions(true, 1);
         let stride = if quick { 400 } else { 40 };
@@ -351,6 +356,7 @@ pub fn explore_c11(rep: &Report, finish: bool) -> i32 {
     }
     let sweep_points = AtomicU64::new(0);
     let full_runs = AtomicU64::new(0);
+    let mut session_roots: Vec<(Pos, Vec<u64>)> = Vec::new();
     for pos in &sweep_roots {
         let root = fresh_root(pos, &h);
         let pieces = pos.b.iter().filter(|x| **x != 0).count();
@@ -382,6 +388,7 @@ pub fn explore_c11(rep: &Report, finish: bool) -> i32 {
         let k1 = r1.queries; // consultations until iteration 1 has finished
         let rd = run_search(&root.board, &root.table, None, d);
         let kmax = rd.queries;
+        session_roots.push((*pos, vec![k1, (k1 + kmax) / 2, kmax]));
         let idx = AtomicU64::new(k1);
         std::thread::scope(|s| {
             for _ in 0..threads() {
@@ -406,8 +413,9 @@ pub fn explore_c11(rep: &Report, finish: bool) -> i32 {
                     for l in &run.infos {
                         if let Ok(info) = parse_info(l) {
                             if let Some(nm) = info.mate {
-                                // with a mate in one on the board the only truthful announcement is "mate 1"
-                                if nm != 1 {
+                                // with a mate in one on the board every "mate N", N >= 1, is true (a forced mate in at
+                                // most N moves exists); a mate against the side to move is not
+                                if nm < 1 {
                                     rep.fail("C11", "false-mate-announcement/clock-expiring", format!("{}: expiry at consultation {}: '{}' although the side to move mates in one", root.name, k, info.raw), J::obj().set("kind", J::s("e2-search")).set("position_command", J::s(&root.command)).set("position_fen", J::s(&pos.fen())).set("expiry_index", J::Int(k as i128)).set("stop_after_iteration", J::Int(d as i128)).set("line", J::s(l)));
                                 }
                             }
@@ -417,6 +425,10 @@ pub fn explore_c11(rep: &Report, finish: bool) -> i32 {
             }
         });
     }
+    // ---- the same roots through the whole go path of the real binary (search thread, channel, I/O thread,
+    // bestmove text): what is PLAYED mates, once iteration 1 has finished
+    let played = crate::e4_session::mate_in_one_sessions(rep, &session_roots);
+    rep.add("mate_in_one_roots_played_through_the_real_binary", played);
     // ---- mates given by castling, en passant or promotion (complete special-move families, filtered by the rules)
     let special_mates = special_move_check_positions(true, 1);
     let sm_searched = AtomicU64::new(0);
@@ -677,6 +689,28 @@ pub const DEEP_CHAIN_ROOTS: &[(&str, u32, bool)] = &[
     ("BBK5/P3QP1n/1Ppp1PPN/pp1P1rr1/PbR2p1p/p1nkPq1R/4p1b1/3N4 w - - 0 1", 23, true),
 ];
 
+/// Positions with a quiet mate in one next to a capture that mates in two through checks only (so that
+/// iteration 1, thanks to the check extension, already sees a mate score before it tries the mate in one):
+/// found offline with `wmc checkchainfind <n> -1` among 300,000 deterministic queen-heavy scrambles.
+pub const MATE_RACE_ROOTS: &[&str] = &[
+    "1K1b1q2/3q4/q4q1Q/Qbk5/8/5q2/B6Q/8 b - - 0 1",
+    "1Q2K3/2R4Q/1q6/6k1/Q7/3Q4/3qR3/Q5q1 w - - 0 1",
+    "1R6/q7/8/4q1q1/5k2/Q2Q2bK/1bQ5/7Q w - - 0 1",
+    "1q5k/5Q2/8/1B3K2/1Q6/2qQ4/2R5/1q6 w - - 0 1",
+    "2q1q3/Q4q2/2Q2RbQ/r4q2/3K4/8/5k2/8 b - - 0 1",
+    "3Q4/6q1/Q1q5/5qQ1/Q7/7k/4K3/6Q1 w - - 0 1",
+    "3r1q2/8/5Q2/k5qq/q7/2K3Q1/1Q6/2Q5 b - - 0 1",
+    "4Q3/5q1q/8/3k3r/1Q6/2K3Q1/4Q3/3q4 w - - 0 1",
+    "5q2/2k5/3qQ3/1Q1QQq2/1R1K4/8/3B4/8 w - - 0 1",
+    "5q2/r4q2/8/1q3QQ1/3b4/6Q1/2K1k3/8 w - - 0 1",
+    "8/2q5/q6k/Q4K2/1Q5q/5Q2/4q3/Q3Q3 b - - 0 1",
+    "8/8/7Q/6qq/4Q3/1Q1K4/8/2k1q3 w - - 0 1",
+    "8/8/QQ6/q2k4/4q3/Q1Q5/1q6/2Q2K2 w - - 0 1",
+    "8/qq1Q3K/8/4q2k/6q1/1Q6/8/Q7 b - - 0 1",
+    "Q2R4/2k1q3/5q2/b7/B7/3q4/3Q4/1Q4K1 w - - 0 1",
+    "k3q3/q5q1/8/4q1Q1/Q5Q1/4B3/K7/6q1 b - - 0 1",
+];
+
 /// Queen-heavy positions with open kings whose depth-2 value depends on check extensions far from the root
 /// (found offline with `wmc checkchainfind` among 1.5 million deterministic scrambles): the number is the
 /// deepest ply at which the reference extends a check below them.
@@ -792,6 +826,9 @@ fn c12_roots(rep: &Report, h: &ZobristHasher) -> Vec<Root> {
     }
     for (f, _) in CHECK_CHAIN_ROOTS {
         roots.push(fresh_root(&Pos::from_fen(f).expect("check chain fen"), h));
+    }
+    for f in MATE_RACE_ROOTS {
+        roots.push(fresh_root(&Pos::from_fen(f).expect("mate race fen"), h));
     }
     // capture chains below the horizon of every length up to 22: one square attacked eight times and defended
     // eight times, a second one three against three, and every position obtained by taking away up to k of
@@ -1191,6 +1228,23 @@ pub fn checkchainfind(count: usize, min_ply: i32) {
                 }
                 let root = fresh_root(&p, &h);
                 let succs = crate::move_generation::generate_moves(&root.board, crate::move_generation::MoveGenerationMode::AllMoves, &h);
+                if min_ply < 0 {
+                    // other mode: a quiet mate in one next to a capture that mates in two through checks only
+                    let mut r = Ref::new(&h, 3_000_000);
+                    let mut table = root.table.clone();
+                    let vals: Vec<i32> = succs.iter().map(|c| -r.alphabeta(c, 0, 1, -10_000_000, 10_000_000, &mut table)).collect();
+                    if r.capped {
+                        continue;
+                    }
+                    let legal = p.legal_moves();
+                    let quiet_mate1 = succs.iter().zip(vals.iter()).any(|(c, v)| *v == crate::refsearch::MATE_SCORE - 1 && move_of_successor(&p, c).map(|m| !p.is_capture(&m)).unwrap_or(false));
+                    let capture_mate2 = succs.iter().zip(vals.iter()).any(|(c, v)| *v == crate::refsearch::MATE_SCORE - 3 && move_of_successor(&p, c).map(|m| p.is_capture(&m)).unwrap_or(false));
+                    let _ = legal;
+                    if quiet_mate1 && capture_mate2 {
+                        found.lock().unwrap().push((0, 1, p.fen()));
+                    }
+                    continue;
+                }
                 for d in [1u8, 2] {
                     let value = |xcap: i32| -> Option<(i32, i32)> {
                         let mut r = Ref::new(&h, 3_000_000);
